@@ -222,10 +222,16 @@ def run(check):
                             st = f["style"][wname]
                             if st == "none":
                                 continue      # a reference without any `use` or qualification names no crate: out of scope
-                            if re.search(r"\b(?:self|crate|super)::(?:\w+::)*%s\b" % re.escape(wname), render_file(f["file"])):
-                                # `self::T` (or `super::m::T`) next to `use other::T;` records a second import of T (from the current crate);
-                                # which one HashSet::find returns depends on the hash seed (the ambiguous class of C06)
-                                check.count("ambiguous: qualified self/crate/super path next to a use")
+                            src_text = render_file(f["file"])
+                            use_crates = [m.group(1) for m in re.finditer(r"^\s*use (\w+)::.*\b%s\b" % re.escape(wname), src_text, re.M)]
+                            if re.search(r"\b(?:self|crate|super)::(?:\w+::)*%s\b" % re.escape(wname), src_text) \
+                                    and all(f["crate"].replace("-", "_") < uc for uc in use_crates):
+                                # `self::T` (or `super::m::T`) next to `use other::T;` records a second import of T, from the current crate;
+                                # find_type keeps the one whose crate name is smallest (deterministic since the C06 fix "resolve a type name
+                                # imported from several crates the same way in every run"; Lean: reconcile_keeps_smallest).  When that is the
+                                # current crate nothing is imported: a name imported from two crates is outside the scope of the completeness
+                                # claim (C14.inScope).  When the other crate is the smaller one the import is expected like any other.
+                                check.count("out of scope: qualified self/crate/super path next to a use, current crate name smaller")
                                 continue
                             # completeness is claimed only for plain / grouped `use` of un-renamed types
                             kid = {"as": "use-as-ignored"}.get(st)
@@ -255,7 +261,7 @@ def run(check):
         names = set().union(*[l2.names_of(f["file"]) for f in files])
         mreq, _, _ = l2.requests(lang, cfg, jobs, g, multi_file=True)
         ma = model([mreq], names=names if lang == "python" else None)[0]
-        if "ok" in ma and "ambiguous" not in ma:
+        if "ok" in ma:
             mtexts = {k: v for k, v in ma["ok"].items()}
             itexts = {f["crate"].replace("-", "_"): outs[file_name(lang, f["crate"])] for f in files}
             if "Codable.swift" in outs:
